@@ -37,6 +37,7 @@ PROPS = {
     'C06': dict(streams=['midix', 'write']),
     'C07': dict(streams=['ticks', 'write']),
     'C08': dict(streams=['midix', 'write']),
+    'C09': dict(streams=['robust', 'conv', 'write', 'dict']),
     'C10': dict(streams=['conv', 'wconv', 'note', 'scale']),
     'C11': dict(streams=['variants', 'lex']),
     'C13': dict(streams=['scale', 'diatonic']),
